@@ -238,6 +238,7 @@ func (V *Verifier) verifyFunctions(fns []*ssa.Function, lemmas []*Lemma, opt sol
 		}
 		ropt := opt
 		ropt.workers = 3
+		ropt.timeout = 3 * opt.timeout // alone and with three times the budget
 		V.solveAll(again, ropt)
 	}
 	retryUndecided(res.Obls)
